@@ -769,7 +769,81 @@ func mapKeys(prog []POp, f func(string) string) []POp {
 	return res
 }
 
+// runBigBatch: "PutMany is one atomic step whose effect is every record of the batch": batches of Iters records (all
+// without expiration, or with a few expiring ones mixed in) and every one of them read back (Get of first / middle /
+// last, GetMany of all in chunks of 100)
+func runBigBatch(c Case, s *hx.Sink) {
+	b := inmemB
+	if c.Be == "redis" {
+		b = redisB
+	}
+	b.Reset()
+	st := b.S
+	ctx := context.Background()
+	n := c.Iters
+	recs := make([]kvs.Record, n)
+	far := time.Now().Add(time.Hour)
+	for i := range recs {
+		recs[i] = kvs.Record{Key: fmt.Sprintf("bb/%05d", i), Value: []byte(fmt.Sprintf("v%d", i))}
+		if c.Workers > 0 && i%c.Workers == c.Workers-1 {
+			recs[i].ExpiresAt = &far
+		}
+	}
+	if err := st.PutMany(ctx, recs); err != nil {
+		s.DirectViolation(c.ID, "big batch: PutMany failed", map[string]any{"records": n, "err": err.Error()})
+		return
+	}
+	missing, wrong := 0, 0
+	first := ""
+	for from := 0; from < n; from += 100 {
+		to := from + 100
+		if to > n {
+			to = n
+		}
+		keys := make([]string, 0, 100)
+		for i := from; i < to; i++ {
+			keys = append(keys, recs[i].Key)
+		}
+		rs, err := st.GetMany(ctx, keys...)
+		if err != nil || len(rs) != len(keys) {
+			s.DirectViolation(c.ID, "big batch: GetMany failed", map[string]any{"records": n, "err": fmt.Sprint(err)})
+			return
+		}
+		for j, r := range rs {
+			switch {
+			case r == nil:
+				missing++
+				if first == "" {
+					first = keys[j]
+				}
+			case r.Key != keys[j] || string(r.Value) != string(recs[from+j].Value):
+				wrong++
+				if first == "" {
+					first = keys[j]
+				}
+			}
+		}
+	}
+	for _, i := range []int{0, n / 2, n - 1} {
+		if r, err := st.Get(ctx, recs[i].Key); err != nil || string(r.Value) != string(recs[i].Value) {
+			missing++
+			if first == "" {
+				first = recs[i].Key
+			}
+		}
+	}
+	if missing+wrong > 0 {
+		s.DirectViolation(c.ID, "PutMany returned nil but not every record of the batch is there afterwards",
+			map[string]any{"records": n, "every_nth_expiring": c.Workers, "missing": missing, "wrong_key_or_value": wrong, "first": first, "backend": c.Be})
+	}
+	s.Count(fmt.Sprintf("bigbatch:%s:%d", c.Be, n))
+}
+
 func runCase(c Case, s *hx.Sink) (string, Case, bool) {
+	if c.Kind == "bigbatch" {
+		runBigBatch(c, s)
+		return coqCase(c.ID, nil, []int{}), c, true
+	}
 	if c.Kind == "owners" {
 		runOwners(c, s)
 		return coqCase(c.ID, nil, []int{}), c, true
@@ -1027,6 +1101,18 @@ func main() {
 		c := Case{ID: id, Be: be, Kind: "owners", Procs: []int{8, 16, 12}[i%3], Prog: []POp{}, Workers: []int{8, 6, 10}[i%3], Iters: 4000, BudgetMs: 700}
 		add(c)
 		s.Count("kind:owners:" + be)
+	}
+	// ---- large batches: every record of a successful PutMany is there
+	for i, n := range []int{511, 512, 513, 1024, 1536, 2048, 700} {
+		for _, be := range []string{"redis", "inmem"} {
+			id++
+			every := 0
+			if i == 6 {
+				every = 50
+			}
+			add(Case{ID: id, Be: be, Kind: "bigbatch", Prog: []POp{}, Iters: n, Workers: every})
+			s.Count("kind:bigbatch:" + be)
+		}
 	}
 	occupied("inmem", p.crI/8, 8, "C02OI")
 	occupied("redis", p.crR/4, 4, "C02OR")
